@@ -211,7 +211,16 @@ pub fn run(tier: &str) -> i32 {
     let thorough = rep.thorough();
     rep.rule("product alphabet of foreign archives from the independent encoder: section order (6 permutations, root optionally behind a gap) x gap {0,1,13} x tree shape {root only, root->leaves, depth 3, mixed} x run length {1,2,3} x offsets {contiguous, back-references, descending, overlapping} x entries {0,1,2,3,7} x metadata {length 0, {}, object} x 4 compressions, opened through from_bytes/from_reader/from_async_reader, util::read_directories(_async) and Directory::find_entry_for_tile_id on every directory; plus the three upstream fixtures compared tile by tile with the spec reader; non-trivial = archives with >=1 entry");
     rep.assume("directory trees deeper than 3 and more than a few thousand entries are outside the enumerated alphabet (fixtures reach 1.4M tiles)");
-    let specs = product(thorough);
+    // the full product is cheap enough for every tier; thorough adds longer directories
+    let mut specs = product(true);
+    if thorough {
+        for mut s in product(false).into_iter().filter(|s| s.n == 7) {
+            s.n = 40;
+            specs.push(s.clone());
+            s.n = 333;
+            specs.push(s);
+        }
+    }
     let bad: Vec<(usize, Vec<(String, String)>)> = specs
         .par_iter()
         .enumerate()
@@ -238,7 +247,9 @@ pub fn run(tier: &str) -> i32 {
 
 pub fn replay(case: &Value) -> Vec<String> {
     if case["kind"].as_str() == Some("fixture") {
-        return vec!["fixtures are re-checked by `./check C03 quick`".into()];
+        let rep = Report::new("C03", "quick", "exploration");
+        fixtures(&rep);
+        return if rep.violations_so_far() == 0 { vec![] } else { vec!["fixture comparison still fails".into()] };
     }
     let s = Spec::from_json(case);
     check_foreign(&build(&s), &expected_meta(&s)).into_iter().map(|(k, d)| format!("{k}: {d}")).collect()
